@@ -5,6 +5,10 @@ let model = function
   | ["replace"; p; r; s] -> (match replace_all (str_of_hex p) (str_of_hex r) (str_of_hex s) with None -> "HANG" | Some x -> "S " ^ hex_of_str x)
   | ["starts"; f; p] -> if starts_with (str_of_hex f) (str_of_hex p) then "B 1" else "B 0"
   | ["join"; i; l] -> "S " ^ hex_of_str (join (str_of_hex i) (strs_of_wire l))
+  | ["joini"; i; l] ->
+      let ints = if l = "." then [] else String.split_on_char ',' l in
+      let strs = List.map (fun d -> List.map (fun c -> byte_of_int (Char.code c)) (List.of_seq (String.to_seq (string_of_int (int_of_string d))))) ints in
+      "S " ^ hex_of_str (join (str_of_hex i) strs)
   | _ -> "BADCASE"
 (* the oracle judges an observation by the SPEC, not by the model *)
 let oracle case obs =
@@ -17,5 +21,9 @@ let oracle case obs =
   | ["replace"; p; r; s], ["S"; x] -> str_of_hex x = spec_replace (str_of_hex p) (str_of_hex r) (str_of_hex s)
   | ["starts"; f; p], ["B"; b] -> (b = "1") = prefixb (str_of_hex p) (str_of_hex f)
   | ["join"; i; l], ["S"; x] -> str_of_hex x = spec_join (str_of_hex i) (strs_of_wire l)
+  | ["joini"; i; l], ["S"; x] ->
+      let ints = if l = "." then [] else String.split_on_char ',' l in
+      let strs = List.map (fun d -> List.map (fun c -> byte_of_int (Char.code c)) (List.of_seq (String.to_seq (string_of_int (int_of_string d))))) ints in
+      str_of_hex x = spec_join (str_of_hex i) strs
   | _ -> false
 let () = run_driver model oracle
